@@ -219,3 +219,18 @@ package protobuf
 //@     invariant forall k int :: 0 <= k && k < len(x.Sigs) ==> len(protoSignedState.Sigs[k]) == len(x.Sigs[k]) && forall j int :: 0 <= j && j < len(x.Sigs[k]) ==> protoSignedState.Sigs[k][j] == x.Sigs[k][j]
 //@     invariant forall k int :: 0 <= k && k < $i ==> pbSigSame(signedState.Sigs[k], x.Sigs[k])
 //@     invariant forall k int :: $i <= k && k < len(x.Sigs) ==> signedState.Sigs[k] == nil
+
+// Keys of address map entries (backend IDs written as big-endian unsigned 32-bit numbers).
+//@ func verifPBWalletAddrKey
+//@   requires a != nil && 0 <= id && id <= 4294967295 && streaming()
+//@   modifies *
+//@   inlines FromWalletAddr, ToWalletAddr
+//@   ensures fromErr == nil && toErr == nil ==> forall b wallet.BackendID :: has(y, b) ==> b == id
+//@   loop FromWalletAddr.1
+//@     modifies fresh
+//@     invariant addressMappings == nil || fresh(arr(addressMappings))
+//@     invariant forall k int :: 0 <= k && k < len(addressMappings) ==> addressMappings[k] != nil && be32is(addressMappings[k].Key, id)
+//@   loop ToWalletAddr.1
+//@     modifies fresh, ghost("unmarshalledFrom"), ghost("unmarshalled"), ghost("rpos")
+//@     invariant addrMap != nil && fresh(addrMap) && protoAddr != nil && forall k int :: 0 <= k && k < len(protoAddr.AddressMapping) ==> protoAddr.AddressMapping[k] != nil && be32is(protoAddr.AddressMapping[k].Key, id)
+//@     invariant forall b wallet.BackendID :: has(addrMap, b) ==> b == id
